@@ -349,12 +349,14 @@ public:
   std::map<char, std::pair<bool, std::string>> refCache;
   std::map<char, std::vector<DepRec>> issuedDeps;   // per task this build, in issue order (+discovered)
   std::map<char, std::string> completedValue;
-  std::map<char, char> discoveredBy;                // rule -> leaf it reported as discovered in this build
+  std::map<char, std::string> discoveredBy;         // rule -> keys it reported as discovered in this build
   std::set<char> withdrawnThisBuild;                // rules whose record was rewritten as "not up to date"
   // k completed in the current build and the key it discovered has not been brought up to date (yet)
   bool unsettled(char k) const {
     auto it = discoveredBy.find(k);
-    return it != discoveredBy.end() && statusComplete.count(k) && !doneThisBuild.count(it->second);
+    if (it == discoveredBy.end() || !statusComplete.count(k)) return false;
+    for (char dk : it->second) if (!doneThisBuild.count(dk)) return true;
+    return false;
   }
   std::set<std::pair<char, char>> waitEdges;        // (waiter, awaited) requests issued this build
   std::map<char, std::vector<DepRec>> preBuildDeps; // recorded deps before this build (for C07 W)
@@ -627,12 +629,14 @@ public:
       if (!fire)
         for (auto& i : t.issued) if ((int)i.id == d.discOn) fire = uv::parity(i.value) == d.discPar;
       if (fire) {
-        if (uv::isLeafKey(d.discLeaf)) reads.push_back(uv::leafValue(d.discLeaf, ext.s[d.discLeaf]));
-        std::string dn = keyName(d.discLeaf);
-        if (cfg.capi) { llb_data_t kd{dn.size(), (const uint8_t*)dn.data()}; llb_buildengine_task_discovered_dependency(t.cti, &kd); }
-        else t.ti.discoveredDependency(dn);
-        issuedDeps[t.key].push_back({keyName(d.discLeaf), false, false});
-        discoveredBy[t.key] = d.discLeaf;
+        for (char dk : d.discs) {
+          if (uv::isLeafKey(dk)) reads.push_back(uv::leafValue(dk, ext.s[dk]));
+          std::string dn = keyName(dk);
+          if (cfg.capi) { llb_data_t kd{dn.size(), (const uint8_t*)dn.data()}; llb_buildengine_task_discovered_dependency(t.cti, &kd); }
+          else t.ti.discoveredDependency(dn);
+          issuedDeps[t.key].push_back({keyName(dk), false, false});
+        }
+        discoveredBy[t.key] = d.discs;
       }
     }
     std::string v = uv::isLeafKey(t.key) ? uv::leafValue(t.key, ext.s[t.key]) : uv::computeValue(d, t.key, vals, reads);
@@ -992,7 +996,7 @@ inline void Session::checkCycleReport(BuildObs& o) {
   std::set<std::pair<std::string, std::string>> W;
   for (auto& e : waitEdges) W.insert({keyName(e.first), keyName(e.second)});
   // a key reported as discovered in this build has to be brought up to date on behalf of the reporting rule
-  for (auto& kv : discoveredBy) W.insert({keyName(kv.first), keyName(kv.second)});
+  for (auto& kv : discoveredBy) for (char dk : kv.second) W.insert({keyName(kv.first), keyName(dk)});
   for (auto& kv : preBuildDeps)
     for (auto& d : kv.second) W.insert({keyName(kv.first), d.key});
   if (o.cycle) {
@@ -1017,7 +1021,7 @@ inline void Session::checkCycleReport(BuildObs& o) {
     for (size_t i = 0; i + 1 < c.size(); ++i) {
       char from = specKey(c[i]), to = specKey(c[i + 1]);
       if (waitEdges.count({from, to})) continue;  // requested by a task in this build
-      { auto db = discoveredBy.find(from); if (db != discoveredBy.end() && db->second == to) continue; }  // discovered in this build
+      { auto db = discoveredBy.find(from); if (db != discoveredBy.end() && db->second.find(to) != std::string::npos) continue; }  // discovered in this build
       auto pd = preBuildDeps.find(from);
       if (pd == preBuildDeps.end()) continue;
       for (auto& d : pd->second) {
@@ -1137,9 +1141,9 @@ inline BuildObs Session::build(const Event& ev) {
     // is justified (allowed, not demanded: the C01 oracle judges the results).
     for (auto& kv : discoveredBy)
       if (unsettled(kv.first)) {
-        mem[kv.first].unsettledDiscovered = kv.second;
+        mem[kv.first].unsettledDiscovered = kv.second[0];
         mem[kv.first].interrupted = true;
-        if (disk.count(kv.first)) { disk[kv.first].unsettledDiscovered = kv.second; if (cfg.useDB) disk[kv.first].ever = false; }
+        if (disk.count(kv.first)) { disk[kv.first].unsettledDiscovered = kv.second[0]; if (cfg.useDB) disk[kv.first].ever = false; }
       }
   }
   if (o.success && !withdrawnThisBuild.empty())
